@@ -13,7 +13,8 @@ ANCHORS = ['numdifftools.fornberg:fd_derivative']
 MIN_COUNTERS = dict(quick={'points_asserted:left_boundary': 500, 'points_asserted:right_boundary': 500,
                            'points_asserted:interior': 1000},
                     thorough={'points_asserted:interior': 50000})
-RULE = ('grids of length 2mm+2..60 (mm = n//2+m): uniform, random strictly increasing, random strictly '
+RULE = ('Grid kinds also jittered (uniform up to 1e-9..1e-3), tiny_unit, huge_unit; in half of the cases the grid has been differentiated before with other (n, m) of the same stencil width. ' 
+        'grids of length 2mm+2..60 (mm = n//2+m): uniform, random strictly increasing, random strictly '
         'decreasing, geometric; n in 1..6, m in 1..4; integer-coefficient polynomials of every degree '
         '0..2mm sampled exactly and rounded once; each grid index is compared with p^(n)(x_i). distinct '
         'non-trivial = (n, m, grid kind, degree) with degree >= n (derivative not identically zero)')
